@@ -461,6 +461,30 @@ func (m *Machine) model(fn *ssa.Function, args []Value, res ssa.Value) *modelRes
 		y := m.freshVar(constStr(args[0]), term.BV(64))
 		m.assume(f.Eq(y, args[1].(*term.T)))
 		return &modelRes{v: y}
+	case "verif.local/vrt.And":
+		return &modelRes{v: f.And(args[0].(*term.T), args[1].(*term.T))}
+	case "verif.local/vrt.Or":
+		return &modelRes{v: f.Or(args[0].(*term.T), args[1].(*term.T))}
+	case "verif.local/vrt.Not":
+		return &modelRes{v: f.Not(args[0].(*term.T))}
+	case "verif.local/vrt.Implies":
+		return &modelRes{v: f.Implies(args[0].(*term.T), args[1].(*term.T))}
+	case "verif.local/vrt.Ite":
+		return &modelRes{v: m.merge(args[0].(*term.T), args[1], args[2])}
+	case "verif.local/vrt.All":
+		sl := args[0].(*SliceV)
+		cs := []*term.T{}
+		for i := 0; i < sl.Len; i++ {
+			cs = append(cs, m.load(&PtrV{Obj: sl.Obj, Path: []int{sl.Off + i}}).(*term.T))
+		}
+		return &modelRes{v: f.And(cs...)}
+	case "verif.local/vrt.Any":
+		sl := args[0].(*SliceV)
+		cs := []*term.T{}
+		for i := 0; i < sl.Len; i++ {
+			cs = append(cs, m.load(&PtrV{Obj: sl.Obj, Path: []int{sl.Off + i}}).(*term.T))
+		}
+		return &modelRes{v: f.Or(cs...)}
 	case "verif.local/vrt.B2I":
 		return &modelRes{v: f.Ite(args[0].(*term.T), f.BVC(64, 1), f.BVC(64, 0))}
 	case "verif.local/vrt.Panics":
@@ -476,10 +500,10 @@ func (m *Machine) model(fn *ssa.Function, args []Value, res ssa.Value) *modelRes
 		m.procs = append(m.procs, p)
 		return &modelRes{}
 	case "verif.local/vrt.Final":
-		m.finals = append(m.finals, args[0].(*FuncV))
+		m.finals = append(m.finals, labeledFn{constStr(args[0]), args[1].(*FuncV)})
 		return &modelRes{}
 	case "verif.local/vrt.Invariant":
-		m.invars = append(m.invars, args[0].(*FuncV))
+		m.invars = append(m.invars, labeledFn{constStr(args[0]), args[1].(*FuncV)})
 		return &modelRes{}
 	case "verif.local/vrt.LibExited", "verif.local/vrt.Closed", "verif.local/vrt.ChanLen", "verif.local/vrt.Now",
 		"verif.local/vrt.Exited", "verif.local/vrt.Cancelled", "verif.local/vrt.Daemon", "verif.local/vrt.TrySend",
